@@ -112,6 +112,12 @@ class SymbolicExpression:
     def deep_eq(self, other: object) -> bool:
         raise NotImplementedError  # pragma: no cover
 
+    def _attribute_numbers(self) -> typing.FrozenSet[int]:
+        """The attributes as the numbers a file carries: a known attribute
+        may be held as the enumeration member or as its number (a loaded
+        expression holds the member), and both mean the same."""
+        return frozenset(int(a) for a in self.attributes)
+
     def _attributes_repr(self) -> str:
         if not self.attributes:
             return "set()"
@@ -189,7 +195,7 @@ class SymAddrAddr(SymbolicExpression):
             and self.offset == other.offset
             and self.symbol1.uuid == other.symbol1.uuid
             and self.symbol2.uuid == other.symbol2.uuid
-            and self.attributes == other.attributes
+            and self._attribute_numbers() == other._attribute_numbers()
         )
 
     def __hash__(self) -> int:
@@ -223,7 +229,7 @@ class SymAddrAddr(SymbolicExpression):
             and self.offset == other.offset
             and self.symbol1.deep_eq(other.symbol1)
             and self.symbol2.deep_eq(other.symbol2)
-            and self.attributes == other.attributes
+            and self._attribute_numbers() == other._attribute_numbers()
         )
 
     @property
@@ -282,7 +288,7 @@ class SymAddrConst(SymbolicExpression):
         return (
             self.offset == other.offset
             and self.symbol.uuid == other.symbol.uuid
-            and self.attributes == other.attributes
+            and self._attribute_numbers() == other._attribute_numbers()
         )
 
     def __hash__(self) -> int:
@@ -308,7 +314,7 @@ class SymAddrConst(SymbolicExpression):
         return (
             self.offset == other.offset
             and self.symbol.deep_eq(other.symbol)
-            and self.attributes == other.attributes
+            and self._attribute_numbers() == other._attribute_numbers()
         )
 
     @property
